@@ -148,33 +148,7 @@ func write(w io.Writer, tpl *Tpl, ctx *Ctx) (err error) {
 func (t *Tpl) writeNode(w io.Writer, node *node, ctx *Ctx) (err error) {
 	switch node.typ {
 	case typeRaw:
-		if ctx.chJQ {
-			// JSON quote mode.
-			ctx.BufAcc.StakeOut()
-			jsonEscape(node.raw, &ctx.BufAcc)
-			_, err = w.Write(ctx.BufAcc.StakedBytes())
-		} else if ctx.chHE {
-			// HTML escape mode.
-			ctx.bufCB.Reset().Write(node.raw)
-			err = modHTMLEscape(ctx, &ctx.bufX, &ctx.bufCB, nil)
-			if err != nil {
-				_, err = w.Write(node.raw)
-			} else {
-				_, err = w.Write(ctx.bufMO.Bytes())
-			}
-		} else if ctx.chUE {
-			// URL encode mode.
-			ctx.bufCB.Reset().Write(node.raw)
-			err = modURLEncode(ctx, &ctx.bufX, &ctx.bufCB, nil)
-			if err != nil {
-				_, err = w.Write(node.raw)
-			} else {
-				_, err = w.Write(ctx.bufMO.Bytes())
-			}
-		} else {
-			// Raw node writes as is.
-			_, err = w.Write(node.raw)
-		}
+		err = t.writeRaw(w, node.raw, ctx)
 	case typeTpl:
 		// Get data from the context.
 		raw := ctx.get(node.raw)
@@ -238,19 +212,26 @@ func (t *Tpl) writeNode(w io.Writer, node *node, ctx *Ctx) (err error) {
 				// Empty value. Do nothing.
 				return
 			}
+			b := ctx.BufAcc.StakedBytes()
 			if len(node.prefix) > 0 {
 				// Write prefix.
-				if _, err = w.Write(node.prefix); err != nil {
+				if err = t.writeRaw(w, node.prefix, ctx); err != nil {
 					return
 				}
 			}
-			// Write bytes data.
-			if _, err = w.Write(ctx.BufAcc.StakedBytes()); err != nil {
+			// Write bytes data: like static text (escaped inside jsonquote/htmlescape/urlencode
+			// bound tags) unless the value is marked raw.
+			if node.noesc {
+				_, err = w.Write(b)
+			} else {
+				err = t.writeRaw(w, b, ctx)
+			}
+			if err != nil {
 				return
 			}
 			// Write suffix.
 			if len(node.suffix) > 0 {
-				_, err = w.Write(node.suffix)
+				err = t.writeRaw(w, node.suffix, ctx)
 			}
 		}
 	case typeCtx:
@@ -648,6 +629,38 @@ func (t *Tpl) writeNode(w io.Writer, node *node, ctx *Ctx) (err error) {
 	default:
 		// Unknown node type caught.
 		err = ErrUnknownCtl
+	}
+	return
+}
+
+// Write static text (or a printed value) according to the bound tag in effect.
+func (t *Tpl) writeRaw(w io.Writer, p []byte, ctx *Ctx) (err error) {
+	if ctx.chJQ {
+		// JSON quote mode.
+		ctx.BufAcc.StakeOut()
+		jsonEscape(p, &ctx.BufAcc)
+		_, err = w.Write(ctx.BufAcc.StakedBytes())
+	} else if ctx.chHE {
+		// HTML escape mode.
+		ctx.bufCB.Reset().Write(p)
+		err = modHTMLEscape(ctx, &ctx.bufX, &ctx.bufCB, nil)
+		if err != nil {
+			_, err = w.Write(p)
+		} else {
+			_, err = w.Write(ctx.bufMO.Bytes())
+		}
+	} else if ctx.chUE {
+		// URL encode mode.
+		ctx.bufCB.Reset().Write(p)
+		err = modURLEncode(ctx, &ctx.bufX, &ctx.bufCB, nil)
+		if err != nil {
+			_, err = w.Write(p)
+		} else {
+			_, err = w.Write(ctx.bufMO.Bytes())
+		}
+	} else {
+		// Raw node writes as is.
+		_, err = w.Write(p)
 	}
 	return
 }
